@@ -27,6 +27,7 @@ BUILD_EXEMPT = {'mapped_op': 'wraps mapped_circuit(), in which every map, repeti
 
 def run(ctx):
     repo = ctx.repo
+    _control_keys_from_scoped_body(ctx, repo)
     ctx.decided += [
         'C12.a CircuitOperation.replace/__eq__/_hash/_json_dict_/_from_json_dict_/__repr__ cover the constructor fields',
         'C12.b every with_*/protocol method of CircuitOperation builds its result through replace() (unnamed fields carry over)',
@@ -447,6 +448,10 @@ def run(ctx):
                 cur = [v_ if n_ == k_ else n_ for n_ in cur]
             return Ex(cur)
 
+        def xreplace(self, mapping):           # structural replacement: every node is looked up once
+            m = {str(k): str(v) for k, v in mapping.items()}
+            return Ex(m.get(n_, n_) for n_ in self.names)
+
     class Cm:
         def __init__(self, ex):
             self.expr = ex
@@ -492,6 +497,71 @@ def run(ctx):
         ctx.ob('C12.j', f'cirq.value.condition.SympyCondition:key_map={km}', got == want,
                '' if got == want else f'`a > b` remapped with {km} becomes `{got[0] if got else None} > {got[1] if got else None}` instead of `{want[0]} > {want[1]}`',
                owner_.mod.rel, fn_.lineno, construct='cirq.value.condition.SympyCondition._with_measurement_key_mapping_')
+
+    # the same for the two sibling rewrites: prefixing and rescoping (a key and its own prefixed form in one condition: `a > p:a` under prefix p)
+    class K(str):
+        def with_key_path_prefix(self, *path):
+            return K(':'.join(list(path) + [str(self)]))
+    for meth, want_names in (('_with_key_path_prefix_', ('p:a', 'p:p:a')), ('_with_rescoped_keys_', ('p:a', 'p:p:a'))):
+        r2 = repo.find_method(sc, meth)
+        if r2 is None:
+            raise AnalysisError(f'SympyCondition.{meth} vanished')
+        o2, f2 = r2
+        me = Cm(Ex(('a', 'p:a')))
+        me.keys = (K('a'), K('p:a'))
+
+        def call_hook2(call, it):
+            s_ = ast.unparse(call.func)
+            if s_.endswith('with_key_path_prefix') and len(call.args) == 2 and not isinstance(call.func, ast.Attribute):
+                return K(it.ev(call.args[0])).with_key_path_prefix(*it.ev(call.args[1]))
+            if s_.endswith('mkp.with_key_path_prefix') and len(call.args) == 2:
+                return K(it.ev(call.args[0])).with_key_path_prefix(*it.ev(call.args[1]))
+            if s_.endswith('Symbol') or s_ == 'str':
+                return str(it.ev(call.args[0]))
+            if s_.split('.')[-1] in ('SympyCondition', 'cls'):
+                v = it.ev(call.args[0]) if call.args else it.ev(call.keywords[0].value)
+                return Cm(v)
+            return NotImplemented
+        params2 = [a.arg for a in f2.args.args]
+        env2 = {params2[0]: me, params2[1]: ('p',)}
+        if len(params2) > 2:
+            env2[params2[2]] = frozenset([K('p:a'), K('p:p:a')])
+        it = fdx.NumInterp(env2, call_hook=call_hook2)
+
+        def attr3(node, itp):
+            try:
+                v = itp.ev(node.value)
+            except fdx.Unsupported:
+                return NotImplemented
+            if isinstance(v, (Cm, Ex, K)) and hasattr(v, node.attr):
+                return getattr(v, node.attr)
+            return NotImplemented
+        it.attr_hook = attr3
+        it.builtins.update({'len': len, 'range': range})
+        try:
+            res = it.call(f2)
+        except (fdx.Unsupported, fdx.Raised) as ex:
+            raise AnalysisError(f'{o2.name}.{meth} is outside the interpretable subset: {ex}')
+        got = res.expr.names if isinstance(res, Cm) else None
+        ctx.ob('C12.j', f'cirq.value.condition.SympyCondition.{meth}:a>p:a', got == want_names, '' if got == want_names else
+               f'`a > p:a` under path (p,) becomes `{got[0] if got else None} > {got[1] if got else None}` instead of `p:a > p:p:a`: a key replaced first is replaced again as if it were '
+               'the other key', o2.mod.rel, f2.lineno, construct=f'cirq.value.condition.SympyCondition.{meth}')
+
+    # sympy's `subs(..., simultaneous=True)` goes through products of dummy symbols and raises TypeError for Boolean expressions (`a & b | c & d`):
+    # a condition may be one, so simultaneous rewriting has to be structural (xreplace)
+    ctx.rule('C12.s', 'rewriting the symbols of a condition works for Boolean expressions: no call `.subs(..., simultaneous=True)` on an expression in cirq/value/condition.py - sympy '
+             'implements it through arithmetic on dummy symbols, which a Boolean expression (`a & b | c & d`, a legal SympyCondition) rejects with TypeError; xreplace is simultaneous and '
+             'structural', floor=1, style='EFF')
+    cm_ = repo.module('cirq-core/cirq/value/condition.py')
+    nsub = 0
+    for c_ in ast.walk(cm_.tree):
+        if isinstance(c_, ast.Call) and isinstance(c_.func, ast.Attribute) and c_.func.attr in ('subs', 'xreplace'):
+            nsub += 1
+            bad_ = c_.func.attr == 'subs' and any(k_.arg == 'simultaneous' and isinstance(k_.value, ast.Constant) and k_.value.value is True for k_ in c_.keywords)
+            ctx.ob('C12.s', f'cirq.value.condition:{c_.func.attr}@{nsub}', not bad_, '' if not bad_ else
+                   f'`{ast.unparse(c_)[:70]}` raises TypeError when the condition is a Boolean expression', cm_.rel, c_.lineno)
+    if nsub == 0:
+        raise AnalysisError('C12.s: no symbol substitution left in condition.py')
 
     # ------------------------------------------------------------------ C12.k
     ctx.decided.append('C12.k an operation cannot satisfy its own classical control: in AbstractCircuit._control_keys_ the keys an operation measures are added to the '
@@ -847,6 +917,45 @@ def _rescoping_by_interpretation(ctx, repo):
             ctx.ob('C12.r', f'{ac.qual}._with_rescoped_keys_:path={path}:moment{i}', ok, '' if ok else
                    f'moment {i} is re-scoped with bindable keys {sorted(map(repr, got or []))}, expected {sorted(map(repr, want))}: keys measured in the same or a later moment must not be '
                    'offered (a control would bind to a measurement that has not happened yet)', ac.mod.rel, fn.lineno, construct=f'{ac.qual}._with_rescoped_keys_')
+    # ---- Moment: the operations of one moment are applied in order, so operation j may bind to what operations 0..j-1 of the same moment measure
+    mo = repo.cls('cirq.circuits.moment.Moment')
+    fnm = mo.methods.get('_with_rescoped_keys_')
+    if fnm is None:
+        raise AnalysisError('Moment._with_rescoped_keys_ vanished')
+    for path in (('r',), ()):
+        opsm = [M([K((), 'k')]), M([]), M([K((), 'j')])]
+        init = frozenset([K((), 'x')])
+        seen = []
+
+        def call_hook_m(call, it, path=path, seen=seen):
+            last = ast.unparse(call.func).split('.')[-1]
+            if last == 'with_rescoped_keys':
+                m_ = it.ev(call.args[0])
+                seen.append((m_, frozenset(it.ev(call.args[2]))))
+                return M([k.with_key_path_prefix(*it.ev(call.args[1])) for k in m_.keys])
+            if last == 'measurement_key_objs':
+                v = it.ev(call.args[0])
+                return frozenset(v.keys) if isinstance(v, M) else frozenset()
+            if last in ('Moment', 'cls', 'type'):
+                return list(it.ev(call.args[0])) if call.args else []
+            return NotImplemented
+        pm = [a.arg for a in fnm.args.args]
+        it = fdx.NumInterp({pm[0]: {'operations': tuple(opsm), '_operations': tuple(opsm)}, pm[1]: path, pm[2]: init}, call_hook=call_hook_m, attr_hook=common_attr)
+        it.builtins.update({'frozenset': frozenset})
+        try:
+            it.call(fnm)
+        except (fdx.Unsupported, fdx.Raised) as ex:
+            raise AnalysisError(f'Moment._with_rescoped_keys_ is outside the interpretable subset: {ex}')
+        by_o = {id(m_): b_ for m_, b_ in seen}
+        for j, o_ in enumerate(opsm):
+            want = set(init)
+            for e in opsm[:j]:
+                want |= {k.with_key_path_prefix(*path) for k in e.keys}
+            got = by_o.get(id(o_))
+            ok = got is not None and set(got) == want
+            ctx.ob('C12.r', f'{mo.qual}._with_rescoped_keys_:path={path}:operation{j}', ok, '' if ok else
+                   f'operation {j} of the moment is re-scoped with bindable keys {sorted(map(repr, got or []))}, expected {sorted(map(repr, want))}: the operations of a moment run in order, '
+                   'so a control may read the measurement that precedes it in the same moment (and nothing that follows it)', mo.mod.rel, fnm.lineno, construct=f'{mo.qual}._with_rescoped_keys_')
     # ---- CircuitOperation
     co = repo.cls('cirq.circuits.circuit_operation.CircuitOperation')
     fn2 = co.methods.get('_with_rescoped_keys_')
@@ -879,3 +988,34 @@ def _rescoping_by_interpretation(ctx, repo):
                (f'parent_path becomes {got.get("parent_path")} (expected {tuple(path) + tuple(parent)})' if not ok1 else
                 f'extern keys become {sorted(map(repr, got.get("extern_keys", ())))}, expected {sorted(map(repr, want_keys))}: keys of scopes deeper than the enclosing one belong to '
                 'finished sibling sub-circuits and must not be bindable'), co.mod.rel, fn2.lineno, construct=f'{co.qual}._with_rescoped_keys_')
+
+
+def _control_keys_from_scoped_body(ctx, repo, rid='C12.t'):
+    """CircuitOperation reports the control keys of its *scoped* body (key paths applied), like the unrolled form has them."""
+    ci = repo.cls('cirq.circuits.circuit_operation.CircuitOperation')
+    ctx.decided.append(f'{rid} CircuitOperation._control_keys takes the keys from the body after qubit / key mapping *and* key-path scoping (the single-loop form), not from the unscoped mapped body')
+    ctx.rule(rid, 'control keys of a sub-circuit are scoped keys: every `control_keys(<x>)` in CircuitOperation._control_keys whose argument is not the raw `self.circuit` (the cheap '
+             '"are there any" test) is applied to the scoped body - a call of _mapped_single_loop(...) (repetition id / parent path prefixed, keys re-bound) - never to _mapped_any_loop, '
+             'which carries no key paths: a nested operation that reads `0:b` would report `b` and be scheduled before the measurement it depends on', floor=1, style='RG')
+    fn = ci.methods.get('_control_keys')
+    if fn is None:
+        raise AnalysisError('CircuitOperation._control_keys vanished')
+    n = 0
+    for c in ast.walk(fn):
+        if not (isinstance(c, ast.Call) and call_name(c).split('.')[-1] == 'control_keys' and c.args):
+            continue
+        a = c.args[0]
+        if ast.unparse(a) in ('self.circuit', 'self._circuit'):
+            continue
+        n += 1
+        src = ast.unparse(a)
+        # follow one local
+        if isinstance(a, ast.Name):
+            for st in ast.walk(fn):
+                if isinstance(st, ast.Assign) and any(isinstance(t, ast.Name) and t.id == a.id for t in st.targets):
+                    src = ast.unparse(st.value)
+        ok = '_mapped_single_loop' in src
+        ctx.ob(rid, f'{ci.qual}._control_keys:source@{n}', ok, '' if ok else
+               f'`{ast.unparse(c)[:70]}` reads the control keys of `{src[:40]}`, which has no key paths applied: the keys reported differ from those of the unrolled operation', ci.mod.rel, c.lineno)
+    if n == 0:
+        raise AnalysisError(f'{rid}: _control_keys no longer asks a mapped body for its control keys')
